@@ -4,16 +4,33 @@ import json, os
 V = os.path.dirname(os.path.dirname(os.path.abspath(__file__)))
 
 MC = "model_checking"
+ENC_NOTE = "Trusts x86dec.c (validated against nasm/objdump at setup), the str_to_reg/strtoul contract stubs, the libc models, CBMC 6.11 + CaDiCaL; text is concrete per skeleton (TOK lemmas cover other spellings)."
+ENC_TECH = "CBMC bounded symbolic execution of the real C pipeline per text skeleton, SAT (CaDiCaL), reference-decoder oracle, native replay of counterexamples"
+GLUE_NOTE = "Per-line work abstracted to lines of symbolic kind/length (justified by ENC verdicts); libc models; counterexamples replayed natively with real instruction text."
+GLUE_TECH = "CBMC bounded symbolic execution of the real API layer with per-line stubs, SAT (CaDiCaL), native replay under ASan/UBSan"
+OS_NOTE = "OS model /verif/c/vf_os.c (page size, mmap/mremap/munmap/file calls, fault schedule) is part of the claim; replay uses the real system calls with injected faults."
+TOK_NOTE = "Unit-level decomposition of the text layer (whole-line symbolic text is out of reach of CBMC on this parser); libc models; leaf findings count only if they reproduce through the public API."
+
 CHECKS = {
     # id: (engine, level, text, note, technique, design_ref)
-    "C01": ("ENC", MC,
-            "Bounded symbolic verdict: for every skeleton (mnemonic x register-operand form) CBMC/CaDiCaL shows, for all register tuples of all widths, all 12 option combinations and arbitrary prior buffer contents, that the real pipeline from asm_assemble_str emits bytes the reference decoder reads back as exactly the written instruction. Not a proof: text is concrete per skeleton, loops are unwound with unwinding assertions.",
-            "Trusts x86dec.c (validated against nasm/objdump), the str_to_reg/strtoul contract stubs, the libc models, CBMC 6.11 + CaDiCaL.",
-            "CBMC bounded symbolic execution of the real C pipeline per text skeleton, SAT (CaDiCaL), reference-decoder oracle, native replay", "5/C01"),
-    "C04": ("ENC", MC,
-            "Same engine as C01 over every documented MMX/SSE/AVX/AVX2/BMI2/ADX register form: all register tuples (mm0-7, xmm/ymm0-15, 32/64-bit GPRs), all options; decoder checks mandatory prefix, map, VEX.L/W/vvvv and inverted R/X/B through the decoded operation and operands.",
-            "As C01.",
-            "CBMC bounded symbolic execution of the real C pipeline per text skeleton, SAT (CaDiCaL), reference-decoder oracle, native replay", "5/C04"),
+    "C01": ("ENC", MC, "Bounded symbolic verdict per skeleton (mnemonic x register-operand form): for all register tuples of all widths, all 12 option combinations and arbitrary prior buffer contents the real pipeline from asm_assemble_str emits bytes the reference decoder reads back as exactly the written instruction. Not a proof: text is concrete per skeleton, loops are unwound with unwinding assertions.", ENC_NOTE, ENC_TECH, "5/C01"),
+    "C02": ("ENC", MC, "Same engine per (memory-taking form x documented memory shape x scale x keyword): base/index over all 64/32-bit registers, displacement over its whole signed range, decoded effective address compared as a linear form with the written one; STRICT literal stack-pointer index accepted as documented.", ENC_NOTE, ENC_TECH, "5/C02"),
+    "C03": ("ENC", MC, "Same engine per (immediate-taking form x destination kind x literal spelling): the value ranges over everything representable at the destination width; decoded immediate after sign/zero extension equals the written value; mov r64 judged by its architectural effect in all three modes.", ENC_NOTE, ENC_TECH, "5/C03"),
+    "C04": ("ENC", MC, "Same engine over every documented MMX/SSE/AVX/AVX2/BMI2/ADX register form: all register tuples, all options; the decoder checks mandatory prefix, map, VEX.L/W/vvvv and inverted R/X/B through the decoded operation and operands.", ENC_NOTE, ENC_TECH, "5/C04"),
+    "C05": ("ENC", MC, "Same engine per (branch mnemonic x keyword x spelling): displacement symbolic over +-2^62; accepted => rel8/rel32 form of that operation with field == d; representable => accepted; short/rel8-only and out of range => rejected with no bytes; indirect and far forms through the C02 shapes.", ENC_NOTE, ENC_TECH, "5/C05"),
+    "C06": ("GLUE", MC, "API-layer verdict: programs of K abstract lines from an arbitrary start offset with arbitrary options and buffer contents give exactly the concatenation of the lines' signatures, and the same buffer when split at an arbitrary line boundary over two calls.", GLUE_NOTE, GLUE_TECH, "5/C06"),
+    "C07": ("GLUE", MC, "Histories of H arbitrary API calls (chunk size, offset, plain/fitting/counting assembly with failing lines, other instances) on a buffer of symbolic length: every instruction write is range-checked by the stub, NOP writes by buffer comparison, anything else by CBMC's pointer checks; 20-byte reserve rule asserted.", GLUE_NOTE, GLUE_TECH, "5/C07"),
+    "C08": ("GLUE+OS", MC, "Managed-buffer growth with the growth quantum scaled down: successive calls from arbitrary offsets in all three modes, mremap moving or not; offsets, per-instruction positions and counts equal a reference instance on a large caller buffer; mremap/munmap receive the live address and size; RWX protection.", OS_NOTE, GLUE_TECH + "; OS model", "5/C08"),
+    "C09": ("TOK+ENC", MC, "Memory safety and termination per unit: line filter on all byte strings <= 104, operand splitter with arbitrary operand characters, every scanner on arbitrary bounded strings at arbitrary buffer positions, and the encoder/emitter on well-formed skeletons, all with CBMC's pointer/bounds/overflow/shift checks and unwinding assertions.", TOK_NOTE, "CBMC bounded symbolic execution of each text-layer unit on arbitrary bounded strings with all memory-safety checks, SAT (CaDiCaL)", "5/C09"),
+    "C10": ("ENC+TOK+GLUE", MC, "Rejection: malformed skeletons through the whole pipeline must return EXIT_FAILURE and leave the buffer unchanged; every operand-kind string per mnemonic at the lookup level against nasm's verdicts; str_to_reg on every string <= 5 chars; non-printable bytes; failing line at any position in every mode.", ENC_NOTE + " " + TOK_NOTE, ENC_TECH, "5/C10"),
+    "C11": ("ENC", MC, "mov r64, imm per spelling: which of the three encodings each mode selects, for every value; SIB swap / no-base shapes encoded as documented per option; non-interference: representative lines assembled on two instances under two arbitrary option combinations give identical bytes.", ENC_NOTE, ENC_TECH, "5/C11"),
+    "C12": ("GLUE", MC, "One-step query from every documented option state x five setters x every 32-bit option value against the documented transition function, frame on a second instance, plus direct sequences; induction over the state gives sequences of any length.", "Oracle spec_next written from the documentation; option bits compared through the masks of /repo/src/common.h.", "CBMC bounded symbolic execution of the real setters, SAT", "5/C12"),
+    "C13": ("GLUE", MC, "Per chunk size: one-instruction step query from arbitrary buffer length/offset (inductive over lines), two-call queries switching fitting, chunk sizes below 2: padding only where needed, valid NOPs of the gap length, instructions shorter than the chunk never straddle, code bytes preserved.", GLUE_NOTE, GLUE_TECH, "5/C13"),
+    "C14": ("GLUE", MC, "Per chunk size: two consecutive counting calls from arbitrary offsets; count equals the number of boundary-spanning instructions of that call, positions equal plain assembly, zero for chunk sizes below 2.", GLUE_NOTE, GLUE_TECH, "5/C14"),
+    "C15": ("GLUE", MC, "Instance A after an arbitrary history of H calls vs. a fresh instance B with the same options, chunk setting and offset: same return value, final offset and bytes for the final call; failed calls leave earlier bytes intact.", GLUE_NOTE, GLUE_TECH, "5/C15"),
+    "C16": ("TOK+ENC", MC, "Relational queries: two spellings of a line (case flips, inserted blanks, trailing comment / CRLF, label/section/global lines) hand the same string to the tokenizer; the same symbolic value in hexadecimal, decimal and with leading zeros gives identical bytes on two instances.", TOK_NOTE + " " + ENC_NOTE, "CBMC relational queries on the real filter/str_to_instr and on the whole pipeline, SAT", "5/C16"),
+    "C17": ("GLUE+OS", MC, "Fault schedule symbolic: each kind of OS call may fail at its 1st..4th occurrence, all kinds independently, in four scenarios (managed create/grow/destroy, caller buffer, file assembly, binary output): no CBMC memory-safety failure, documented return values, live mapping still reported, instance destroyable.", OS_NOTE, GLUE_TECH + "; OS model with symbolic fault schedule", "5/C17"),
+    "C19": ("GLUE+OS", MC, "File model with symbolic size 0..3 model pages and arbitrary contents: the text handed to the in-memory entry point is the file's contents, NUL-terminated inside the mapping; results passed through; missing file fails; binary output writes exactly [0, offset).", OS_NOTE, GLUE_TECH + "; OS model", "5/C19"),
 }
 
 def main():
@@ -43,7 +60,9 @@ def main():
         "hooks": {"guard": "ASSEMBLYLINE_VERIF", "enable": "checks compile /repo/src with goto-cc -DASSEMBLYLINE_VERIF; no source hook is needed (static functions are exported by goto-cc, callees replaced by goto-instrument)",
                   "baseline_off_cmd": "./tools/baseline.sh", "source_commits": [], "add_only": True},
         "engines": [
-            {"name": "ENC", "path": "vflib/enc.py", "serves_properties": ["C01", "C02", "C03", "C04", "C05", "C11"], "kind_free_text": "CBMC on the whole real pipeline per text skeleton, symbolic registers/numbers/options"},
+            {"name": "ENC", "path": "vflib/enc.py", "serves_properties": ["C01", "C02", "C03", "C04", "C05", "C09", "C10", "C11", "C16"], "kind_free_text": "CBMC on the whole real pipeline per text skeleton, symbolic registers/numbers/options"},
+            {"name": "GLUE", "path": "vflib/glue.py", "serves_properties": ["C06", "C07", "C08", "C10", "C12", "C13", "C14", "C15", "C17", "C19"], "kind_free_text": "CBMC on the real API layer with abstract lines; OS model for C08/C17/C19"},
+            {"name": "TOK", "path": "vflib/tok.py", "serves_properties": ["C09", "C10", "C16"], "kind_free_text": "CBMC on each text-layer unit with arbitrary bounded strings"},
         ],
         "checks": checks,
         "not_applicable": na,
@@ -53,6 +72,6 @@ def main():
         json.dump(m, f, indent=1)
         f.write("\n")
 
-NA = {}
+NA = {"C18": "check under construction in this revision (sequential reduction S1-S5, see DESIGN.md 5/C18)", "C20": "check under construction in this revision (CLI engine, see DESIGN.md 5/C20)"}
 if __name__ == "__main__":
     main()
